@@ -1396,3 +1396,35 @@ def check_freshness_covers_search(prog: Program, res: Result, rule: str) -> None
                     else:
                         res.fail(rule, file=ci.file, line=c.lineno, qualname=f"{ci.name}.{gs}", construct=f"{ci.name}.{gs}: uptodate does not re-run {search}", message=f"{ci.name}.{gs} picks the first of self.{searches[search]} that has the name ({search}) and hands out `{norm(up, 50)}` as its freshness test, which looks at the file found only: a file of the same name created in an earlier search path is not served while the later one is cached and unchanged - the uncached loader serves it at once", what=what)
     res.floor(rule, "source getters over a first-match search", n, 4)
+
+
+def check_decimal_remainder(prog: Program, res: Result, rule: str) -> None:
+    """`%` and `//` on decimal.Decimal truncate (the result takes the sign of the dividend) while the same operators on int and float
+    floor (the sign of the divisor). A math filter whose integer branch is `left % right` and whose float branch is a bare
+    `Decimal(...) % Decimal(...)` computes two different functions for negative operands: `-5 | modulo: 3` is 1, `-5.0 | modulo: 3`
+    is -2.0. The Decimal remainder must be corrected for the sign (or not be a Decimal remainder)."""
+    mod = prog.mod("liquid2/builtin/filters/math.py")
+    n = 0
+
+    def is_decimal(e: ast.AST, fn: ast.AST | None = None) -> bool:
+        if isinstance(e, ast.Name) and fn is not None:
+            defs = [a.value for a in ast.walk(fn) if isinstance(a, ast.Assign) and any(isinstance(t, ast.Name) and t.id == e.id for t in a.targets)]
+            return bool(defs) and all(is_decimal(d) for d in defs)
+        return isinstance(e, ast.Call) and (dotted(e.func) or "").split(".")[-1] == "Decimal"
+
+    for fi in sorted(mod.functions.values(), key=lambda f: f.node.lineno):
+        for b in ast.walk(fi.node):
+            if not (isinstance(b, ast.BinOp) and isinstance(b.op, (ast.Mod, ast.FloorDiv)) and is_decimal(b.left, fi.node) and is_decimal(b.right, fi.node)):
+                continue
+            n += 1
+            site = f"{fi.file}:{b.lineno} {fi.qualname}"
+            what = f"{fi.qualname}: the Decimal remainder is brought to the sign of the divisor, as the integer branch's `%` has it"
+            # accepted: the result is bound to a name that is later adjusted by `+= <divisor>` under a sign test
+            par = fi.module.parent(b)
+            tgt = par.targets[0].id if isinstance(par, ast.Assign) and len(par.targets) == 1 and isinstance(par.targets[0], ast.Name) else None
+            adjusted = tgt is not None and any(isinstance(a, ast.AugAssign) and isinstance(a.op, ast.Add) and isinstance(a.target, ast.Name) and a.target.id == tgt for a in ast.walk(fi.node))
+            if adjusted:
+                res.ok(rule, site, what, f"`{tgt}` is adjusted after the truncating remainder")
+            else:
+                res.fail(rule, file=fi.file, line=b.lineno, qualname=fi.qualname, construct=f"{fi.qualname}: bare Decimal `{'%' if isinstance(b.op, ast.Mod) else '//'}` beside an integer branch", message=f"{fi.qualname} computes `{norm(b, 70)}`: Decimal's remainder takes the sign of the dividend, the integer branch's (and Liquid's) the sign of the divisor - `{{{{ -5 | modulo: 3 }}}}` is 1 but `{{{{ -5.0 | modulo: 3 }}}}` is -2.0", what=what)
+    res.floor(rule, "Decimal remainders in the math filters", n, 1)
